@@ -345,6 +345,54 @@ func shutdownScenario(param string) vsched.Scenario {
 		stopped := false
 		body := func() {
 			dir := shutdownWork
+			if strings.HasPrefix(param, "twoServers") {
+				// two managed servers under one manager, each with its own store file
+				pa := filepath.Join(dir, "upsks-"+param+"-a.json")
+				pb := filepath.Join(dir, "upsks-"+param+"-b.json")
+				initial := map[string][]byte{userName(0): key(0)}
+				os.WriteFile(pa, doc(initial), 0o644)
+				os.WriteFile(pb, doc(initial), 0o644)
+				m := cred.NewManager(zap.NewNop())
+				msA, err := m.RegisterServer("a", pa, 16, nil, nil)
+				if err != nil {
+					panic(err)
+				}
+				msB, err := m.RegisterServer("b", pb, 16, nil, nil)
+				if err != nil {
+					panic(err)
+				}
+				ctx, cancel := vcontext.WithCancel(vcontext.Background())
+				m.Start(ctx)
+				switch param {
+				case "twoServersChangeA":
+					msA.AddCredential(userName(1), key(1))
+				case "twoServersChangeB":
+					msB.AddCredential(userName(1), key(1))
+				case "twoServersChangeBoth":
+					msA.AddCredential(userName(1), key(1))
+					msB.DeleteCredential(userName(0))
+				case "twoServersChangeASettled":
+					msA.AddCredential(userName(1), key(1))
+					vsched.Sleep(7 * time.Second)
+					vsched.WaitIdle()
+				}
+				wantSet = setString(credSet(msA)) + "+" + setString(credSet(msB))
+				cancel()
+				m.Stop()
+				stopped = true
+				a2, err := register(pa)
+				if err != nil {
+					loadErr = err
+					return
+				}
+				b2, err := register(pb)
+				if err != nil {
+					loadErr = err
+					return
+				}
+				fileSet = setString(credSet(a2)) + "+" + setString(credSet(b2))
+				return
+			}
 			path := filepath.Join(dir, "upsks-"+param+".json")
 			initial := map[string][]byte{userName(0): key(0)}
 			os.WriteFile(path, doc(initial), 0o644)
@@ -438,7 +486,7 @@ func main() {
 	c.Rule = "crash part: one case = (store size, change, crash point) where a crash point is a prefix of the save's logged file operations plus a byte count of the next write, or an ENOSPC after k bytes; every case restarts through the real RegisterServer/LoadFromFile. shutdown part: one case = one interleaving of API change(s), debounce timer, cancellation and Stop."
 	c.Assumptions = []string{"crash = process kill: bytes handed to write() persist, no power-loss reordering (no fsync requirement is stated)", "file operations of package cred go through verif/shim/vos (overlay), whose WriteFile is open(O_TRUNC)+write+close exactly as os.WriteFile", "debounce runs on the virtual clock"}
 	crashPart(c)
-	params := []string{"queued", "cooling", "afterSaveNewChange", "changeDuringCooldown", "deleteQueued", "idle"}
+	params := []string{"queued", "cooling", "afterSaveNewChange", "changeDuringCooldown", "deleteQueued", "idle", "twoServersChangeA", "twoServersChangeB", "twoServersChangeBoth", "twoServersChangeASettled"}
 	for _, r := range harness.ExploreBatch("shutdown", params, harness.Pick(c, 2, 3), harness.Pick(c, 60*time.Second, 5*time.Minute), false) {
 		c.Sample(map[string]any{"scenario": "shutdown phase " + r.Param, "executions": r.Stats.Execs, "observations": len(r.Stats.Observations)})
 		c.AddExploration("shutdown", r.Param, r.Stats, harness.Confirm(shutdownScenario(r.Param)))
